@@ -475,7 +475,7 @@ func runC20(ctx *Ctx) *Result {
 			if (class == "companion" || class == "xml-groupcycle") && m > 4 {
 				m /= 4
 			}
-			if m == 1 || hash64(fmt.Sprintf("%d/%d", ctx.Seed, i))%m == 0 || class == "unmutated" && i%5 == 0 || class == "aclhead" {
+			if m == 1 || hash64(fmt.Sprintf("%d/%d", ctx.Seed, i))%m == 0 || class == "unmutated" && i%5 == 0 || class == "aclhead" || class == "trunc-kind" {
 				push(build())
 			}
 		})
